@@ -115,9 +115,12 @@ def fam_class():
             def A(self):
                 return self._jac(self.p_A0, self.p_af, self.p_Wf, self.p_Vf, self.p_phf)
 
+            dC = None      # the user's own choice: measurement matrix = analytic Jacobian + dC (e.g. a deliberate approximation)
+
             @property
             def C(self):
-                return self._jac(self.p_C0, self.p_ag, self.p_Wg, self.p_Vg, self.p_phg)
+                J = self._jac(self.p_C0, self.p_ag, self.p_Wg, self.p_Vg, self.p_phg)
+                return J if self.dC is None else J + self.dC
 
         FamNLS.PropJac = PropJacFam
         FamNLS.Alias = AliasFam
@@ -340,13 +343,17 @@ class MpFam:
         return self._jpre("A0", "af", "Wf", "Vf", "phf", x, u)
 
     def jgpre(self, x, u):
-        return self._jpre("C0", "ag", "Wg", "Vg", "phg", x, u)
+        J = self._jpre("C0", "ag", "Wg", "Vg", "phg", x, u)
+        return J if self.dC is None else J + mabs(M(self.dC))
 
     def jf(self, x, u):
         return self._jac("A0", "af", "Wf", "Vf", "phf", self.nf, x, u)
 
+    dC = None
+
     def jg(self, x, u):
-        return self._jac("C0", "ag", "Wg", "Vg", "phg", self.ng, x, u)
+        J = self._jac("C0", "ag", "Wg", "Vg", "phg", self.ng, x, u)
+        return J if self.dC is None else J + M(self.dC)
 
 
 def cond2(Mx) -> float:
